@@ -78,7 +78,9 @@ def validate_batch(traces, texts, module='TraceHistory', cfg='TraceHistory.cfg',
             json.dump(texts if texts else [[48]], f, separators=(',', ':'))
         rc, out, wall = run_tlc(module + '.tla', cfg, env={'VERIF_BATCH': bf, 'VERIF_TEXTS': tf}, timeout=timeout)
         if 'Model checking completed. No error has been found.' not in out:
-            tail = '\n'.join(out.splitlines()[-40:])
+            lines = out.splitlines()
+            first = next((i for i, l in enumerate(lines) if l.startswith('Error:')), max(0, len(lines) - 40))
+            tail = '\n'.join(l[:600] for l in lines[first:first + 30])
             raise Machinery('TLC did not complete trace validation (rc=%s):\n%s' % (rc, tail))
         rows = parse_printed_json(out)
         verdicts = {r['tid']: r for r in rows}
